@@ -103,11 +103,24 @@ func c14UDP(name string, advances int, closers int, sends []c14send, ts []*expTm
 		}
 		var tmplDone []done
 		var results []string
+		var scratch []entities.InfoElementWithValue // the application's own slice, reused for every template
 		app := vsched.Go("app", func() {
 			for _, s := range sends {
 				var set entities.Set
 				if s.template {
-					set = tmplSet(s.tmpl)
+					// slice-adopting add path; after SendSet returns the application reuses its slice
+					scratch = scratch[:0]
+					for _, ie := range s.tmpl.ies {
+						e, err := entities.DecodeAndCreateInfoElementWithValue(ie, nil)
+						if err != nil {
+							panic(err)
+						}
+						scratch = append(scratch, e)
+					}
+					ts := entities.NewSet(false)
+					ts.PrepareSet(entities.Template, s.tmpl.ref.ID)
+					ts.AddRecordV2(scratch, s.tmpl.ref.ID)
+					set = ts
 				} else {
 					set, _ = dataSet(s.tmpl, s.n, 5, 0)
 				}
